@@ -102,4 +102,198 @@ def gcMarkRec (d : Nat) (thread : Obj) (stack : List Word) : Res σ :=
 
 end
 
+
+/-! ### the header's type pointer (known finding KF-C01-type-outlived)
+
+  Every Cello object has a header in front of it (`struct Header { var type; … }`, 24 bytes BEFORE the address the collector knows).  For an
+  instance of a type made at run time — `T = new(Type, name, size, instances…)`, `x = new(T)` — `header(x)->type` is the address of `T`, and
+  `T` itself is an ordinary collector-managed object (`Type_Alloc` → `alloc_by(Type, ALLOC_STANDARD)` → `GC_Set`).  `GC_Recurse(gc, x)` scans
+  `size(type)` bytes from `x` ON and `GC_Mark_Item` accepts only exact object addresses: the collector NEVER marks through the header.  So `T`
+  is kept only if something else holds it (a stack word, a root registration, a field of a reachable object); otherwise the sweep releases
+  `T` while `x` lives, and the next `GC_Recurse(gc, x)` starts with `type_of(x)` → `type_instance(type, Mark)` / `size(type)` on the released
+  block.  `TyMap` is that edge; the collector model (`gcMarkFrom`, `collectAll`, `GState.step`) is unchanged — it does not see the edge, as the
+  code does not — and `TState.run` adds what the C code does when a traced object's Type has been released: undefined behaviour (`none`). -/
+
+/-- `ty a = some t`: the object registered at `a` is an instance of the collector-managed (registered when it was made) run-time Type object at
+    `t`; `none`: its type is static (`Cello(…)` at file scope) or was made with `new_raw` (never registered, never released by a sweep) -/
+abbrev TyMap := Addr → Option Addr
+
+/-- does `type_of(a)` lead to a Type object that is no longer registered (released by a sweep or by `del`)? -/
+def typeDangling (h : Heap) (ty : TyMap) (a : Addr) : Bool :=
+  match ty a with
+  | some t => (h.lookup t).isNone
+  | none => false
+
+/-- **Specification with the header edge**: reachability over the registered heap along the words the collector reads (`Points`) AND along
+    the header's type pointer of every reachable object -/
+inductive ReachableT (c : Cfg) (h : Heap) (ty : TyMap) (roots : List Word) : Addr → Prop
+  | root {a} : a ∈ roots → (h.lookup a).isSome = true → ReachableT c h ty roots a
+  | step {a b} : ReachableT c h ty roots a → Points c h a b → (h.lookup b).isSome = true → ReachableT c h ty roots b
+  | hdr {a t} : ReachableT c h ty roots a → ty a = some t → (h.lookup t).isSome = true → ReachableT c h ty roots t
+
+/-- **The hypothesis of the typed theorems, decidable**: "the types of all registered objects are static, root-registered, or themselves
+    reachable from the roots" — for every registered `a` with `ty a = some t`: `t` is registered and (root-flagged or marked by `GC_Mark` from
+    thread-local storage, the root entries and the stack, i.e. reachable WITHOUT the header edge: `gcMark_iff_reach`).  Registered, not only
+    reachable, instances: an unreachable instance that is swept together with its type has its destructor looked up through the type. -/
+def typesAnchored {σ : Type} (S : MarkSet σ) (c : Cfg) (h : Heap) (ty : TyMap) (thread : Obj) (stack : List Word) : Bool :=
+  let m := gcMark S c h thread stack
+  h.regs.all fun a =>
+    (h.lookup a).isNone ||
+    match ty a with
+    | none => true
+    | some t =>
+      match h.lookup t with
+      | some e => e.root || S.mem t m
+      | none => false
+
+/-- a mark phase that sets the bits `m` from the bits `m0` calls `GC_Recurse` on every registered entry it marks: undefined behaviour when
+    the Type of one of them has been released -/
+def markUB {σ : Type} (S : MarkSet σ) (h : Heap) (ty : TyMap) (m0 m : σ) : Bool :=
+  h.regs.any fun a => (h.lookup a).isSome && S.mem a m && !S.mem a m0 && typeDangling h ty a
+
+/-- does the operation run a mark phase? -/
+def GOp.marks : GOp → Bool
+  | .base .collect => true
+  | .raise _ => true
+  | _ => false
+
+inductive TOp where
+  | op (o : GOp)
+  | retag (a : Addr) (t : Option Addr)   -- `alloc_by` writes the header of the block it hands out: the type of the object at `a` from now on
+
+structure TState where
+  g : GState
+  ty : TyMap
+
+/-- one completed collection of a typed history, with the header edges as they were when it ran -/
+structure TEvent where
+  ev : GEvent
+  ty : TyMap
+
+def TState.retag (s : TState) (a : Addr) (t : Option Addr) : TState :=
+  { s with ty := fun x => if x = a then t else s.ty x }
+
+/-- would the mark phase of this operation call `GC_Recurse` on an object whose Type has been released? -/
+def TState.ubNow {σ : Type} (S : MarkSet σ) (c : Cfg) (clearFirst : Bool) (s : TState) : GOp → Bool
+  | .base .collect =>
+    let m0 := seed S (if clearFirst then [] else s.g.stale)
+    markUB S s.g.heap s.ty m0 (gcMarkFrom S c s.g.heap s.g.thread s.g.stack m0)
+  | .raise k =>
+    ((markEvents c s.g.heap s.g.thread s.g.stack (if clearFirst then [] else s.g.stale)).take k).any fun a =>
+      (s.g.heap.lookup a).isSome && typeDangling s.g.heap s.ty a
+  | _ => false
+
+/-- **typed histories**: `GState.step` (the collector does not see the header edge) with the one thing the C code adds — `none` as soon as a
+    mark phase traces an object whose Type has been released -/
+def TState.run {σ : Type} (S : MarkSet σ) (c : Cfg) (clearFirst : Bool) : List TOp → TState → Option (TState × List TEvent)
+  | [], s => some (s, [])
+  | .retag a t :: ops, s => TState.run S c clearFirst ops (s.retag a t)
+  | .op o :: ops, s =>
+    if s.ubNow S c clearFirst o then none else
+    match TState.run S c clearFirst ops { s with g := (s.g.step S c clearFirst o).1 } with
+    | none => none
+    | some (s2, evs) =>
+      some (s2, match (s.g.step S c clearFirst o).2 with | some e => ⟨e, s.ty⟩ :: evs | none => evs)
+
+/-- the hypothesis over a history: `typesAnchored` holds whenever a mark phase begins -/
+def TState.anchored {σ : Type} (S : MarkSet σ) (c : Cfg) (clearFirst : Bool) : List TOp → TState → Bool
+  | [], _ => true
+  | .retag a t :: ops, s => TState.anchored S c clearFirst ops (s.retag a t)
+  | .op o :: ops, s =>
+    (!o.marks || typesAnchored S c s.g.heap s.ty s.g.thread s.g.stack) &&
+      TState.anchored S c clearFirst ops { s with g := (s.g.step S c clearFirst o).1 }
+
+/-- the operations the collector sees -/
+def TOp.erase : List TOp → List GOp
+  | [] => []
+  | .op o :: ops => o :: TOp.erase ops
+  | .retag _ _ :: ops => TOp.erase ops
+
+/-- witness: `x = new(T)` at 4096 on the stack, `T = new(Type, …)` at 4160, referenced by `x`'s header only -/
+def typeHeap : Heap where
+  lookup a :=
+    if a = 4096 then some ⟨.raw "Probe" [7], false⟩
+    else if a = 4160 then some ⟨.raw "Type" [0], false⟩
+    else none
+  regs := [4096, 4160]
+  minptr := 4096
+  maxptr := 4160
+  complete := by
+    intro a e he
+    by_cases h1 : a = 4096; · simp [h1]
+    by_cases h2 : a = 4160; · simp [h2]
+    simp [h1, h2] at he
+
+def typeTy : TyMap := fun a => if a = 4096 then some 4160 else none
+
+/-! ### live objects that are not registered (audit 2, item 2)
+
+  `GC_Mark_And_Recurse(gc, ptr)` is `if (GC_Mem_Ptr(gc, ptr)) GC_Mark_Item(gc, ptr); else GC_Recurse(gc, ptr);`: a pointer that a heap Tuple (or a user
+  Mark instance) hands out and that is NOT registered is traced as an object in its own right.  That is correct C whenever the pointer leads to a
+  LIVE object — a static object (`Int`, the Type objects), an object on a live stack frame (`$I(42)`), one made with `new_raw` — and a read of
+  released memory only when it dangles (KF-C01-dangling-tuple-item, KF-C01-tuple-aliases-elements).  `level` knows registered objects only and answers
+  `.ub` for every unregistered pointer; `levelX` is the same marker with the live unregistered objects given as `ext`: `.ub` is left for pointers
+  that are in neither — exactly the territory of the two findings. -/
+
+/-- the live objects that are not registered with the collector, by address -/
+abbrev Ext := Addr → Option Obj
+
+section
+variable {σ : Type} (S : MarkSet σ) (c : Cfg) (h : Heap) (ext : Ext)
+
+/-- `GC_Mark_And_Recurse(gc, ptr)` for a stored pointer `w`, with the live unregistered objects known -/
+def callbackX (L : Level σ) (w : Word) (m : σ) : Res σ :=
+  if c.guarded then
+    if (h.lookup w).isSome then L.item w m
+    else match ext w with
+      | some o => L.recurse o m        -- GC_Recurse(gc, ptr) on a live object that is not registered
+      | none => .ub                    -- neither registered nor live: released or foreign memory
+  else
+    (L.item w m).bind fun m' =>
+      match h.lookup w with
+      | some e => L.recurse e.obj m'
+      | none => match ext w with
+        | some o => L.recurse o m'
+        | none => .ub
+
+def levelX : Nat → Level σ
+  | 0 => { item := fun _ _ => .deep, recurse := fun _ _ => .deep }
+  | d + 1 =>
+    let L := levelX d
+    { item := fun w m =>
+        if w % 8 == 0 && decide (h.minptr ≤ w) && decide (w ≤ h.maxptr) then
+          match h.lookup w with
+          | some e => if S.mem w m then .ok m else L.recurse e.obj (S.insert w m)
+          | none => .ok m
+        else .ok m
+      recurse := fun o m =>
+        if c.isLeaf o.ty then .ok m
+        else if c.hasMark o.ty then markInst c false L.recurse (callbackX c h ext L) o m
+        else match o with
+          | .raw _ ws => foldRes L.item (scanWords c ws) m
+          | _ => .ok m }
+end
+
+/-- witness: 4096 ↦ a heap Tuple `new(Tuple, Int, $I(42), ra)` whose items are the static Type object `Int` (at 5000), an Int on a live stack frame
+    (at 5008) and `ra = new_raw(Array, Ref)` (at 5016) holding a Ref to the Probe at 4160 -/
+def extHeap : Heap where
+  lookup a :=
+    if a = 4096 then some ⟨.tup "Tuple" [5000, 5008, 5016], false⟩
+    else if a = 4160 then some ⟨.raw "Probe" [7], false⟩
+    else none
+  regs := [4096, 4160]
+  minptr := 4096
+  maxptr := 4160
+  complete := by
+    intro a e he
+    by_cases h1 : a = 4096; · simp [h1]
+    by_cases h2 : a = 4160; · simp [h2]
+    simp [h1, h2] at he
+
+def extLive : Ext := fun a =>
+  if a = 5000 then some (.raw "Type" [0])
+  else if a = 5008 then some (.raw "Int" [42])
+  else if a = 5016 then some (.cont "Array" [.raw "Ref" [4160]])
+  else none
+
 end Cello.Heap
